@@ -412,13 +412,151 @@ Proof.
   destruct q as [| pq | pq]; try (exfalso; lia).
   rewrite binary_round_aux_equiv.
   apply wrap_pf_correct.
-  rewrite <- (dec_real_sign neg M (- kk) HM) at 1 3 4.
-  apply binary_round_aux_correct.
-  - exact Hprec64.
-  - exact Hmax64.
-  - rewrite dec_real_abs, bpow10_neg by lia.
-    unfold D in Hin. rewrite pow5_eq in Hin by lia. exact Hin.
-  - assert (55 < Zdigits radix2 (Z.pos pq)).
+  assert (Hin' : Bracket.inbetween_float radix2 (Z.pos pq) (- (sh + kk))
+                   (Rabs (dec_real neg M (- kk)))
+                   (if r =? 0 then loc_Exact else loc_Inexact (2 * r ?= D))).
+  { rewrite dec_real_abs, bpow10_neg by lia.
+    rewrite <- (pow5_eq kk) by lia. exact Hin. }
+  assert (Hfe : - (sh + kk) <= fexp64 (Zdigits radix2 (Z.pos pq) + - (sh + kk))).
+  { assert (55 < Zdigits radix2 (Z.pos pq)).
     { apply Zdigits_gt_Zpower. change (radix_val radix2) with 2. lia. }
-    unfold SpecFloat.fexp. lia.
+    unfold SpecFloat.fexp. lia. }
+  pose proof (binary_round_aux_correct 53 1024 Hprec64 Hmax64 mode_NE _ _ _ _ Hin' Hfe) as H.
+  cbv zeta in H. rewrite (dec_real_sign neg M (- kk) HM) in H. exact H.
 Qed.
+
+#[local] Instance fexp64_valid : Valid_exp fexp64 := fexp_correct 53 1024 Hprec64.
+
+Lemma cond_Zopp_mul neg a b :
+  SpecFloat.cond_Zopp neg a * b = SpecFloat.cond_Zopp neg (a * b).
+Proof. destruct neg; cbn [SpecFloat.cond_Zopp]; lia. Qed.
+
+(* k >= 0: the exact integer M * 10^k goes through binary_normalize *)
+Lemma dec_pos neg M k :
+  0 < M -> 0 <= k ->
+  pf_correct neg (dec_real neg M k)
+    (wrap_pf (SpecFloat.binary_normalize 53 1024
+                (if neg then - (M * pow10 k) else M * pow10 k) 0 neg)).
+Proof.
+  intros HM Hk. rewrite pow10_eq by assumption.
+  set (V := M * 10 ^ k).
+  assert (HV : 0 < V) by (apply Z.mul_pos_pos; [assumption | apply Z.pow_pos_nonneg; lia]).
+  change (if neg then - V else V) with (SpecFloat.cond_Zopp neg V).
+  rewrite binary_normalize_equiv.
+  assert (Ex : dec_real neg M k = F2R (Float radix2 (SpecFloat.cond_Zopp neg V) 0)).
+  { unfold dec_real, F2R. cbn [Fnum Fexp].
+    rewrite <- (IZR_Zpower radix10) by assumption. change (radix_val radix10) with 10.
+    rewrite <- mult_IZR, cond_Zopp_mul. fold V. cbn [bpow]. now rewrite Rmult_1_r. }
+  pose proof (binary_normalize_correct 53 1024 Hprec64 Hmax64 mode_NE
+                (SpecFloat.cond_Zopp neg V) 0 neg) as H.
+  cbv zeta in H. rewrite <- Ex in H.
+  apply wrap_pf_correct. split; [apply valid_binary_B2SF | ].
+  change (round_mode mode_NE) with ZnearestE in H.
+  destruct (Rlt_bool (Rabs (round64 (dec_real neg M k))) (bpow radix2 1024)).
+  - destruct H as (H1 & H2 & H3). repeat split.
+    + now rewrite SF2R_B2SF.
+    + now rewrite is_finite_SF_B2SF.
+    + match goal with |- sign_SF (B2SF ?z) = _ =>
+        replace (sign_SF (B2SF z)) with (Bsign z) by (now destruct z) end.
+      rewrite H3.
+      pose proof (dec_real_sign neg M k HM) as Hs.
+      destruct neg.
+      * rewrite Rcompare_Lt; [reflexivity | ].
+        destruct (Rlt_bool_spec (dec_real true M k) 0); [assumption | discriminate].
+      * rewrite Rcompare_Gt; [reflexivity | ].
+        unfold dec_real. apply F2R_gt_0. cbn [Fnum SpecFloat.cond_Zopp]. lia.
+  - rewrite H. now rewrite dec_real_sign.
+Qed.
+
+(* k > 310: at least 10^311 > 2^1024 *)
+Lemma dec_overflow neg M k :
+  0 < M -> 310 < k -> pf_correct neg (dec_real neg M k) (PFRange (S754_infinity neg)).
+Proof.
+  intros HM Hk. unfold pf_correct.
+  rewrite Rlt_bool_false; [reflexivity | ].
+  apply abs_round_ge_generic; try typeclasses eauto.
+  - apply generic_format_bpow. unfold SpecFloat.fexp, SpecFloat.emin. lia.
+  - rewrite dec_real_abs by assumption.
+    apply Rle_trans with (1 * bpow radix10 311)%R.
+    + rewrite Rmult_1_l. rewrite <- (IZR_Zpower radix10), <- (IZR_Zpower radix2) by lia.
+      apply IZR_le. apply Z.leb_le. vm_compute. reflexivity.
+    + apply Rmult_le_compat.
+      * lra.
+      * apply bpow_ge_0.
+      * apply IZR_le. lia.
+      * apply bpow_le. lia.
+Qed.
+
+(* below 2^-1080: rounds to zero, which Go does not report as an error *)
+Lemma dec_tiny neg M kk :
+  0 < M -> 0 < kk -> Z.log2 M + 1081 < 3 * kk ->
+  pf_correct neg (dec_real neg M (- kk)) (PFOk (S754_zero neg)).
+Proof.
+  intros HM Hkk Hsmall.
+  set (y := (IZR M * bpow radix10 (- kk))%R).
+  assert (Hy0 : (0 < y)%R).
+  { apply Rmult_lt_0_compat; [apply IZR_lt; lia | apply bpow_gt_0]. }
+  assert (Hylt : (y < bpow radix2 (- 1080))%R).
+  { unfold y. rewrite bpow_opp.
+    replace (bpow radix2 (- 1080)) with (/ bpow radix2 1080)%R
+      by (symmetry; exact (bpow_opp radix2 1080)).
+    rewrite <- (IZR_Zpower radix10), <- (IZR_Zpower radix2) by lia.
+    change (radix_val radix10) with 10. change (radix_val radix2) with 2.
+    assert (HZ : M * 2 ^ 1080 < 10 ^ kk).
+    { pose proof (Z.log2_spec M HM) as [_ LM]. pose proof (Z.log2_nonneg M).
+      apply Z.lt_le_trans with (2 ^ Z.succ (Z.log2 M) * 2 ^ 1080).
+      - apply Z.mul_lt_mono_pos_r; [apply Z.pow_pos_nonneg; lia | assumption].
+      - rewrite <- Z.pow_add_r by lia.
+        apply Z.le_trans with (2 ^ (3 * kk)).
+        + apply Z.pow_le_mono_r; lia.
+        + rewrite Z.pow_mul_r by lia. change (2 ^ 3) with 8.
+          apply Z.pow_le_mono_l. lia. }
+    assert (H10 : (0 < IZR (10 ^ kk))%R) by (apply IZR_lt; apply Z.pow_pos_nonneg; lia).
+    assert (H2 : (0 < IZR (2 ^ 1080))%R) by (apply IZR_lt; apply Z.pow_pos_nonneg; lia).
+    apply Rmult_lt_reg_r with (IZR (10 ^ kk)); [assumption | ].
+    apply Rmult_lt_reg_r with (IZR (2 ^ 1080)); [assumption | ].
+    replace (IZR M * / IZR (10 ^ kk) * IZR (10 ^ kk) * IZR (2 ^ 1080))%R
+      with (IZR (M * 2 ^ 1080)) by (rewrite mult_IZR; field; lra).
+    replace (/ IZR (2 ^ 1080) * IZR (10 ^ kk) * IZR (2 ^ 1080))%R
+      with (IZR (10 ^ kk)) by (field; lra).
+    apply IZR_lt. exact HZ. }
+  assert (Hry : round64 y = 0%R).
+  { apply round_N_small_pos with (ex := mag radix2 y).
+    - pose proof (bpow_mag_le radix2 y ltac:(lra)) as B1.
+      pose proof (bpow_mag_gt radix2 y) as B2.
+      rewrite Rabs_pos_eq in B1, B2 by lra. split; assumption.
+    - assert (mag radix2 y <= - 1080)%Z.
+      { apply mag_le_bpow; [lra | ]. rewrite Rabs_pos_eq by lra. exact Hylt. }
+      unfold SpecFloat.fexp, SpecFloat.emin. lia. }
+  assert (Hrx : round64 (dec_real neg M (- kk)) = 0%R).
+  { unfold dec_real. destruct neg; cbn [SpecFloat.cond_Zopp].
+    - rewrite F2R_Zopp, round_NE_opp. unfold F2R. cbn [Fnum Fexp]. fold y.
+      rewrite Hry. lra.
+    - unfold F2R. cbn [Fnum Fexp]. exact Hry. }
+  unfold pf_correct. rewrite Hrx, Rabs_R0.
+  rewrite Rlt_bool_true by apply bpow_gt_0.
+  exists (S754_zero neg). repeat split; reflexivity.
+Qed.
+
+Lemma dec_to_f64_zero neg M k : M <= 0 -> dec_to_f64 neg M k = PFOk (S754_zero neg).
+Proof. intros H. unfold dec_to_f64. now replace (M <=? 0) with true by lia. Qed.
+
+(* (d) the numeric core of parse_float is correctly rounded: for M > 0,
+   dec_to_f64 neg M k is round-to-nearest-even of (-1)^neg * M * 10^k, with overflow
+   reported as PFRange (±Inf) and no error on underflow *)
+Theorem dec_to_f64_correct neg M k :
+  0 < M -> pf_correct neg (dec_real neg M k) (dec_to_f64 neg M k).
+Proof.
+  intros HM. unfold dec_to_f64.
+  replace (M <=? 0) with false by lia.
+  destruct (0 <=? k) eqn:Hk.
+  - destruct (310 <? k) eqn:Hbig.
+    + apply dec_overflow; lia.
+    + apply (dec_pos neg M k); lia.
+  - replace k with (- (- k)) at 1 by lia.
+    destruct (Z.log2 M + 1081 <? 3 * - k) eqn:Hsmall.
+    + apply dec_tiny; lia.
+    + apply (dec_main neg M (- k)); lia.
+Qed.
+
+Print Assumptions dec_to_f64_correct.
